@@ -5,14 +5,14 @@ open BiotiteModel.C06
 /-- The if/elif chain of `_escape`: (test, returned expression), in source order. -/
 def escapeBranches : List (Cond × Act) := [
   ((.hasChar '\n'), .multiline),
-  ((.and (.hasChar '\'') (.hasChar '"')), .multiline),
+  ((.and (.hasChar q1) (.hasChar q2)), .multiline),
   (.isEmpty, (.literal "''")),
-  ((.hasChar '\''), (.quote '"')),
-  ((.hasChar '"'), (.quote '\'')),
-  ((.firstIs '_'), (.quote '\'')),
-  ((.hasChar ' '), (.quote '\'')),
-  ((.hasChar '\t'), (.quote '\'')),
-  ((.or (.firstIn ['#', ';']) (.startsWithAny ["data_", "loop_"])), (.quote '\''))
+  ((.hasChar q1), (.quote q2)),
+  ((.hasChar q2), (.quote q1)),
+  ((.firstIs '_'), (.quote q1)),
+  ((.hasChar ' '), (.quote q1)),
+  ((.hasChar '\t'), (.quote q1)),
+  ((.or (.firstIn ['#', ';']) (.startsWithAny ["data_", "loop_"])), (.quote q1))
 ]
 /-- The final `else` of `_escape`. -/
 def escapeDefault : Act := .asIs
@@ -27,7 +27,7 @@ def readerHeadTests : List (String × Cond) := [
   ("_is_loop_start", (.startsWith "loop_")),
   ("_to_single", (.firstIs ';')),
   ("_split_one_line", (.firstIs ';')),
-  ("_split_one_line", (.firstIn ['\'', '"'])),
+  ("_split_one_line", (.firstIn [q1, q2])),
   ("_deserialize_looped", (.firstIs '_'))
 ]
 end BiotiteModel.Gen.C06
